@@ -31,6 +31,13 @@ def strategy(tier):
         c, n, tp = draw(gens.cfg(max_dim=208, min_dim=64, frames=(4, 24 if tier == "thorough" else 14), allow_twopass=False, lps=(2, 3, 4, 8, 16),
                                  presets=(8, 8, 7, 6, 5), tools_p=1, allow_superres=False, allow_grain=False))
         cnt = draw(gens.content(kinds=(2, 3, 5, 7)))
+        if draw(st.integers(0, 4)) == 0:
+            # pictures large enough for the per-picture stages to be split into several segments (temporal filter, ME, EncDec, CDEF/restoration)
+            c["source_width"], c["source_height"] = draw(st.sampled_from([(640, 360), (704, 288), (352, 416), (608, 352), (1280, 192)]))
+            c["enc_mode"] = draw(st.sampled_from([8, 7, 6, 6]))
+            c["logical_processors"] = draw(st.sampled_from([4, 8, 16]))
+            c.pop("tile_rows", None)
+            n = min(n, 9)
         scheds = []
         for _ in range(draw(st.integers(2, 3))):
             # (permille, max_us) pairs with a bounded expected delay per sync point (<= ~30 us) so that a perturbed run stays within
